@@ -1307,7 +1307,11 @@ def main():
                 jobs.append(Job("B", "%s opt=%d" % (key, o), src, o, [["1"] * NARGS], asan=True, end="|ende"))
     # ---- 3. model-shared Text subset
     featM = {}
-    nM = 36 if quick else 400
+    try:
+        scale = float(os.environ.get("VERIF_C05_SCALE", "1"))      # development knob (mutation runs): fewer generated programs
+    except ValueError:
+        scale = 1.0
+    nM = max(4, int((36 if quick else 400) * scale))
     for i in range(nM):
         g = GenM(rng, featM)
         src, sx = g.program()
@@ -1325,7 +1329,7 @@ def main():
             jobs.append(Job("M", "stream=M", src, o, [[t] for t in tapes], sx=sx(o), risky=risky if g.planted else None))
     # ---- 4. random programs over all types, roles, exits
     featA = {}
-    nA = 60 if quick else 900
+    nA = max(6, int((60 if quick else 900) * scale))
     for i in range(nA):
         g = GenA(rng, featA)
         src = g.program()
@@ -1353,7 +1357,7 @@ def main():
         for (j, k), a in zip(mq, mp.stdout.splitlines()):
             mans[(id(j), k)] = a
     stats = dict(runs=0, ok_balanced=0, laufzeitfehler=0, timeout=0, compile_fail=0, sanitizer_runs=0, model_compared=0, model_sequences_equal=0,
-                 model_predicted_unbalanced=0, events=0)
+                 model_predicted_unbalanced=0, statically_accepted_runs=0, events=0)
     shrunk = 0
     vi = iter(verdicts)
     model_bad = None
@@ -1397,10 +1401,17 @@ def main():
             a = mans.get((id(j), k))
             if a is not None and cl != "timeout":
                 stats["model_compared"] += 1
+                static_ok = a.startswith("S1 ")
+                if a[:3] in ("S0 ", "S1 "):
+                    a = a[3:]
+                if static_ok:
+                    stats["statically_accepted_runs"] += 1
                 mverdict = a.split(" # ")[0]
                 mbal = mverdict.startswith("B")
                 if not mbal:
                     stats["model_predicted_unbalanced"] += 1
+                if static_ok and not mbal:
+                    model_bad = model_bad or ("the proved static discipline accepts a skeleton whose model run is unbalanced (%s)" % mverdict[:60], j, argv)
                 if a in ("N", "F") or a.startswith("?"):
                     model_bad = model_bad or ("model does not run the skeleton (%s)" % a, j, argv)
                 elif mbal != (bad is None):
